@@ -7,8 +7,8 @@ CONSTANTS
   MaxRows = 5
   Script = FALSE
   WithEnv = TRUE
-  Depth = 12
-  GenActs <- ActsAll
+  Depth = 9
+  GenActs <- ActsCommitFail
 INIT GenInit
 NEXT GenNext
 CONSTRAINT Emit
